@@ -246,7 +246,7 @@ Inductive rerr :=
 | EHistoryUnavailable (t : N) | EMissingPatch (t : N) | EApply (t : N) | EStateRoot (t : N) | ECommitHash (t : N)
 | EPatchDigest (t : N) | ETickOverflow (t : N) | EReceiptTx (t : N) | EReceiptDigest (t : N)
 | ECheckpointRoot (t : N) | EBaseWarp | EBaseBoundary
-| EEntryWorldline (t : N) | EEntryTick (t : N) | EParentLink (t : N).
+| EEntryWorldline (t : N) | EEntryTick (t : N) | EParentLink (t : N) | ECheckpointMeta (t : N).
 
 (* HistoryError (append / add_checkpoint) *)
 Inductive herr :=
@@ -455,6 +455,13 @@ Section WithHash.
            | Some expected =>
              if negb (cp_hash cp =? expected) then inl (ECheckpointRoot (cp_tick cp))
              else if negb (root (rs_state (cp_state cp)) =? expected) then inl (ECheckpointRoot (cp_tick cp))
+             (* the checkpoint's replay metadata: exactly cp_tick committed ticks, ending in the recorded commit *)
+             else if negb (rs_tick (cp_state cp) =? cp_tick cp) then inl (ECheckpointMeta (cp_tick cp))
+             else if (if cp_tick cp =? 0 then false
+                      else match last_commit (cp_state cp), lookupN (h_entries h) (cp_tick cp - 1) with
+                           | Some c, Some e => negb (c =? e_commit e)
+                           | _, _ => true
+                           end) then inl (ECheckpointMeta (cp_tick cp))
              else run (h_u0 h) (slice (h_entries h) (cp_tick cp) target) (cp_tick cp) (cp_state cp)
            end.
 
